@@ -8,6 +8,7 @@ cp /repo/Cargo.lock kani/Cargo.lock 2>/dev/null
 ( cd kani && cargo kani -Z stubbing --only-codegen --target-dir ../.work/kani-target >/dev/null 2>../.work/setup-kani.log ) &
 ( cd kani && cargo build --offline --bin replay --target-dir ../.work/replay-target >/dev/null 2>../.work/setup-replay.log && cargo build --offline --release --bin replay --target-dir ../.work/replay-target >/dev/null 2>>../.work/setup-replay.log ) &
 ( python3-vt -c "from vlib import common; print(common.mir_dump())" > .work/setup-mir.log 2>&1 ) &
+( cd replay && cp /repo/Cargo.lock . && cargo build --offline --target-dir ../.work/replay2-target >/dev/null 2>../.work/setup-replay2.log && cargo build --offline --release --target-dir ../.work/replay2-target >/dev/null 2>>../.work/setup-replay2.log ) &
 wait
 echo "setup done"
 exit 0
